@@ -1,0 +1,36 @@
+//go:build verif
+// +build verif
+
+package api
+
+import "sort"
+
+// Hooks for the verification harness in /verif (build tag "verif"). They only
+// expose state that already exists; they do not change any behavior.
+
+// VerifEnableWatchData makes all subsequent builds of the context collect watch
+// data, exactly as "Watch()" does, but without starting the polling goroutine.
+func VerifEnableWatchData(ctx BuildContext) {
+	c := ctx.(*internalContext)
+	c.mutex.Lock()
+	c.args.options.WatchMode = true
+	c.mutex.Unlock()
+}
+
+// VerifRebuildWithDirty rebuilds the context and returns the build result along
+// with a function that synchronously evaluates every watch predicate recorded by
+// that build and returns the paths they report as dirty (sorted).
+func VerifRebuildWithDirty(ctx BuildContext) (BuildResult, func() []string) {
+	c := ctx.(*internalContext)
+	state := c.rebuild()
+	return state.result, func() []string {
+		var dirty []string
+		for _, isDirty := range state.watchData.Paths {
+			if path := isDirty(); path != "" {
+				dirty = append(dirty, path)
+			}
+		}
+		sort.Strings(dirty)
+		return dirty
+	}
+}
